@@ -1,5 +1,6 @@
 import LinfaSpec.Model.Proto
 import LinfaSpec.Model.Wire
+import LinfaSpec.Model.Serde
 import LinfaSpec.Gen.C19Types
 
 /-!
@@ -12,6 +13,12 @@ table generated from the Rust sources (`shape=1`), and prints the value in canon
 the harness produces independently from the value's `Serialize` implementation.
 
 `schema type=<crate::Type>`: the generated table entry (live and skipped members).
+
+`varidx type=<crate::Enum> variant=<hex name>`: the variant index an index-based format (bincode)
+carries for that variant (`Serde.serIndex`: declaration index, skipped variants included) and the
+variant that index selects when read back (`Serde.deVariant`: consecutive numbering of the non-skipped
+variants), both computed from the generated table; the harness reports the index `bincode` really
+wrote and the variant it really restored.
 -/
 namespace LinfaSpec.Drv.C19
 open LinfaSpec.Proto LinfaSpec.Wire
@@ -54,10 +61,26 @@ def handleSchema (toks : List String) : Option String := do
     let vs := showList (fun (w : VariantInfo) => w.name ++ "/" ++ w.kind ++ (if w.skip then "!" else "")) t.variants
     some s!"ok kind={t.kind} fields={showFields t.fields} variants={if vs.isEmpty then "-" else vs}"
 
+def handleVarIdx (toks : List String) : Option String := do
+  let ty ← arg toks "type"
+  let name ← (arg toks "variant").bind hexDecode
+  match findType ty with
+  | none => some "unknown-type"
+  | some t =>
+    if t.kind != "enum" then some "not-an-enum" else
+    match LinfaSpec.Serde.serIndex name t.variants with
+    | none => some "ok ser=- back=-"
+    | some k =>
+      let back := match LinfaSpec.Serde.deVariant t.variants k with
+        | some n => hexEncode n
+        | none => "-"
+      some s!"ok ser={k} back={back}"
+
 def handle (toks : List String) : String :=
   let r := match toks with
     | "wire" :: rest => handleWire rest
     | "schema" :: rest => handleSchema rest
+    | "varidx" :: rest => handleVarIdx rest
     | _ => none
   r.getD "bad-op"
 
